@@ -1,11 +1,13 @@
 """C04 — HLL union equals the sketch of the concatenated streams at reduced precision (DESIGN.md 3 C04).
 
 The oracle is a small nondeterministic SPECIFICATION of the union, written independently of the Lean union model: for every
-union it keeps a set of candidate explanations (current lg_k, exact coupons offered, registers of the HLL-mode inputs,
-"may wrongly report empty").  The defect-free candidate implements the property statement.  Two extra, tagged transitions
-describe the two defects of the pinned code that the check rediscovered (D1: a down-sampled gadget reports `is_empty` and is
-replaced by the next sketch input; D14: `reset()` keeps a reduced lg_k).  An observation explained only by tagged candidates
-is reported under the tag's key (known finding); an observation explained by no candidate is a new violation.
+union it keeps a set of candidate explanations (current lg_k, exact coupons offered, registers of the HLL-mode inputs).  The
+defect-free candidate implements the property statement.  Two extra, tagged transitions describe the two defects that this
+check found in the pinned code (D1: a down-sampled gadget reported `is_empty` and was replaced by the next sketch input; D14:
+`reset()` kept a reduced lg_k).  They exist in the specification ONLY while the translator reads the corresponding PINNED source
+shape from the current headers (tools/trules/hll.py -> DSGen/Hll.lean); on the repaired shapes (fix commits d4d0266 / 0ffb856 in
+/repo) every union is specified strictly after every reset and down-sampling, and the old behaviour is a plain violation.  An
+observation explained only by tagged candidates is reported under the tag's key; one explained by no candidate is a violation.
 """
 import os, zlib
 from .. import core, gen
@@ -50,8 +52,30 @@ class Cand:
         return r
 
 
+FIXED = {"D1": False, "D14": False}     # source shapes of the CURRENT headers (set from DSGen/Hll.lean by source_shapes())
+
+
+def source_shapes():
+    """the two source-shape flags the translator read from $VERIF_REPO's HllUnion-internal.hpp (tools/trules/hll.py):
+    with a repaired shape the corresponding tagged defect transition does not exist in the specification, so the behaviour
+    of the pinned code is a plain violation there."""
+    import re
+    try:
+        txt = open(os.path.join(core.LEAN, "DSGen", "Hll.lean")).read()
+        f1 = re.search(r"def hll_unionDownsampleRebuilds : Bool := (true|false)", txt)
+        f2 = re.search(r"def hll_unionResetToMaxK : Bool := (true|false)", txt)
+        FIXED["D1"] = bool(f1) and f1.group(1) == "true"
+        FIXED["D14"] = bool(f2) and f2.group(1) == "true"
+    except OSError:
+        pass
+    return dict(FIXED)
+
+
 def dedup(cands):
     seen, out = set(), []
+    if FIXED["D1"]:
+        for c in cands:
+            c.stale = False          # a down-sampled gadget has valid counters: it never wrongly reports empty
     for c in cands:
         k = c.key()
         if k not in seen:
@@ -63,7 +87,7 @@ def dedup(cands):
 
 class C04(Spec):
     pid = "C04"
-    props_modules = ["DSProofs.Props.C04"]
+    props_modules = ["DSProofs.Props.C04", "DSProofs.Props.C04_Repaired"]
     harness = "hll_h"
     model_exe = "dsmodel_hll"
     family = "hll"
@@ -180,6 +204,7 @@ class C04(Spec):
             cps = lean_coupons(inputs)
         except Exception:
             return []
+        source_shapes()
         sk = {}        # sketch id -> dict(lgk, items:set|None, obs: last parsed F)
         un = {}        # union id -> dict(lgmax, cands:[Cand]|None)
         reported = set()
@@ -256,7 +281,8 @@ class C04(Spec):
                 u = un[int(w[1])]
                 if u["cands"] is not None:
                     nc = [Cand(u["lgmax"], tags=x.tags) for x in u["cands"]]
-                    nc += [Cand(x.lgk, selfhll=sh, tags=x.tags | {"D14"}) for x in u["cands"] if x.lgk != u["lgmax"] for sh in (False, True)]
+                    if not FIXED["D14"]:
+                        nc += [Cand(x.lgk, selfhll=sh, tags=x.tags | {"D14"}) for x in u["cands"] if x.lgk != u["lgmax"] for sh in (False, True)]
                     u["cands"] = dedup(nc)
             elif op == "uest":
                 u = un[int(w[1])]
@@ -383,6 +409,7 @@ class C04(Spec):
 
     def extra_stages(self, rep, tier, rng, broken):
         self._trans = rep.cov.setdefault("transitions_hit", {})
+        rep.cov["source_shapes"] = {"unionDownsampleRebuilds": source_shapes()["D1"], "unionResetToMaxK": FIXED["D14"]}
 
     def nontrivial_key(self, hist, impl_out):
         sig = []
@@ -423,22 +450,22 @@ class C04(Spec):
 SPEC = C04()
 
 CLAIM = dict(
-    text=("Kernel-checked theorems over an executable Lean model of hll_union as coded (gadget, every case of union_impl, "
-          "copy_or_downsample, mergeHll/mergeList, deferred rebuild, rvalue adoption, reset). The full-strength statements "
-          "union_content / union_lgk / union_perm_invariant / union_estimate_pure / union_reset are PROVED FALSE of the current code "
-          "(..._full_false, concrete witnesses; two defects D1/D14, replayed on the real headers every run and listed as open known "
-          "findings with proposed fixes). Proved: mergeHll / copy_or_downsample compute the per-slot maximum of the folded source "
-          "registers for every pair of precisions (union_merge_content, union_downsample_content); get_result is pure and "
-          "type-independent (union_get_result_pure); and for EVERY history without precision reduction (lvalue/rvalue updates whose "
-          "HLL-mode inputs have lg_k = lg_max_k, LIST/SET inputs of any lg_k, raw items, estimate calls, resets) the result is exactly "
-          "the sketch of all offered items at lg_max_k, independent of order, interleaved estimate calls and lvalue/rvalue "
-          "(union_lgk_partial, union_content_partial, union_perm_invariant_partial, union_estimate_pure_partial, "
-          "union_lvalue_eq_rvalue_partial, union_reset_partial). The model is tied to the real headers by differential "
+    text=("Kernel-checked theorems over an executable Lean model of hll_union (gadget, every case of union_impl, "
+          "copy_or_downsample, mergeHll/mergeList, deferred rebuild, rvalue adoption, reset) that follows the source shapes the "
+          "translator reads from the current headers. For the CURRENT (repaired) shape the full statements are proved for ALL "
+          "histories of genuine inputs - lvalue/rvalue updates of any lg_k, type and mode with precision reduction in either "
+          "direction, raw items, estimate calls, resets (Props/C04_Repaired.lean): union_lgk (result lg_k = min(lg_max_k, lg_k of the "
+          "non-empty HLL-mode inputs since the last reset)), union_content (the result is exactly the sketch of that lg_k of every "
+          "offered item: per-slot maxima / exact coupon set), union_perm_invariant, union_estimate_pure, union_lvalue_eq_rvalue, "
+          "union_reset (reset = fresh union, no side condition), and repaired_current ties the generated flags to the repaired "
+          "shape. For the PINNED shape the same statements are PROVED FALSE with concrete witnesses (Props/C04.lean ..._full_false; "
+          "partial versions proved): these are the two defects this check found, repaired in /repo by d4d0266 (copy_or_downsample "
+          "rebuilds the counters) and 0ffb856 (reset() returns to lg_max_k). The model is tied to the real headers by differential "
           "correspondence; an independent nondeterministic specification oracle recomputes every union result from the inputs' own "
-          "item lists."),
-    note=("Partial: when an input forces a precision reduction the code itself violates the property (D1, D14), so the content / lg_k / "
-          "permutation theorems are proved for histories without reduction only; the per-width byte decoding inside mergeHll is "
-          "modelled on registers (covered by correspondence for HLL_4/6/8 sources); after a D14 manifestation the oracle stops "
-          "specifying that union."),
-    technique="Lean 4 proofs + refutation witnesses + differential correspondence + independent specification oracle with tagged known-defect transitions",
+          "item lists and specifies every union after resets and down-samplings; reverting either fix gives a VIOLATION with a "
+          "failing input."),
+    note=("The per-width byte decoding inside mergeHll is modelled on registers (covered by correspondence for HLL_4/6/8 sources); "
+          "equality of the result MODE across permutations is not stated (lg_k, registers and coupon sets are); HIP/ooo values of the "
+          "gadget are compared with the code but nothing is proved about them."),
+    technique="Lean 4 proofs + refutation witnesses for the pinned shape + differential correspondence + independent specification oracle whose defect transitions follow the source-shape flags",
     design="DESIGN.md §3 C04")
